@@ -247,7 +247,7 @@ class Unit:
            ctx_ok_or=(), external_body=False, props=None, safety_props=None, which=0,
            canary=False, rename=None, mode_exec=True, opens_invariants=None, no_unwind=False,
            sig_rewrites=(), header_attrs=(), assume_termination=False, container=None, bare=False,
-           no_body=False, ctx_sites=(), impl_which=0, synth=None, tail_proof=None, proof_label=None, transform=None, head_proof=None, opt_rewrites=(), asserts=(), trait_impl=False):
+           no_body=False, ctx_sites=(), impl_which=0, synth=None, tail_proof=None, proof_label=None, transform=None, head_proof=None, opt_rewrites=(), asserts=(), trait_impl=False, drop_body=False):
         """cut a function from /repo and splice a contract in.
 
         key: 'Type::name' or 'name'.  impl: regex of the impl header type (default = Type from key).
@@ -305,6 +305,11 @@ class Unit:
         sig = self._name_return(sig, ret)
 
         # ---- body
+        if drop_body:
+            # an assumed contract on a function whose body is outside the subset even for the type checker: the body is not emitted at all
+            body = '{' + '\n' * body.count('\n') + ' unimplemented!() }'
+            external_body = True
+            self.drop(f'fn {key}: body not emitted (external_body with an assumed contract)')
         body = self.common_rewrites(body, ctx_ok_or=ctx_ok_or, ctx_sites=ctx_sites)
         for pat, rep in rewrites:
             body, n = re.subn(pat, rep, body)
